@@ -29,6 +29,7 @@ mod c32;
 mod c33;
 mod c35;
 mod c37;
+mod c38;
 mod c40;
 mod c41;
 mod c42;
@@ -65,6 +66,7 @@ pub fn run(item: &str, repo: &str, out: &str) -> Result<String, String> {
         c33::run,
         c35::run,
         c37::run,
+        c38::run,
         c40::run,
         c41::run,
         c42::run,
